@@ -7,6 +7,7 @@ package httpserver
 import (
 	"fmt"
 	"net"
+	"strings"
 
 	"pgregory.net/rapid"
 )
@@ -15,14 +16,24 @@ import (
 type vfClient struct {
 	IP     string
 	Source string // remote | xrealip | xff
+	Text   string // spelling put into the header ("" = canonical)
 }
 
 var vfClients = []vfClient{
-	{"10.0.0.1", "remote"}, {"10.0.0.2", "xrealip"}, {"8.8.8.8", "xff"}, {"2001:db8::1", "remote"}, {"10.0.1.1", "remote"},
+	{"10.0.0.1", "remote", ""}, {"10.0.0.2", "xrealip", ""}, {"8.8.8.8", "xff", ""}, {"2001:db8::1", "remote", ""}, {"10.0.1.1", "remote", ""},
+	// the same clients in legal non-canonical spellings, as front proxies write them
+	{"8.8.8.8", "xff", "::ffff:8.8.8.8"}, {"2001:db8::1", "xrealip", "2001:DB8:0:0:0:0:0:1"}, {"10.0.0.2", "xrealip", "::ffff:10.0.0.2"},
 }
 
 var vfIPPool = []string{"10.0.0.1", "10.0.0.0/24", "10.0.0.0/31", "8.8.8.8", "8.8.8.0/24", "2001:db8::/32",
 	"2001:db8::1", "0.0.0.0/0", "10.0.0.2/32", "::/0", "10.0.1.1", "10.0.0.0/8"}
+
+func (c vfClient) text() string {
+	if c.Text != "" {
+		return c.Text
+	}
+	return c.IP
+}
 
 func (c vfClient) apply(r *vfReq) {
 	switch c.Source {
@@ -30,10 +41,10 @@ func (c vfClient) apply(r *vfReq) {
 		r.Remote = net.JoinHostPort(c.IP, "4321")
 	case "xrealip":
 		r.Remote = "192.0.2.7:4321"
-		r.Headers = append(r.Headers, [2]string{"X-Real-Ip", c.IP})
+		r.Headers = append(r.Headers, [2]string{"X-Real-Ip", c.text()})
 	case "xff":
 		r.Remote = "192.0.2.7:4321"
-		r.Headers = append(r.Headers, [2]string{"X-Forwarded-For", c.IP})
+		r.Headers = append(r.Headers, [2]string{"X-Forwarded-For", c.text()})
 	}
 }
 
@@ -83,6 +94,31 @@ func vfGenSeq(t *rapid.T, srv vfServer, minLen, maxLen int, extra []vfReq) ([]vf
 					r.Headers = append(r.Headers, [2]string{k, v})
 				}
 			}
+		}
+		// near-duplicates: requests that a "normalising" cache key could conflate with the base
+		// although the router tells them apart (host case, trailing dot, port, path case / slash,
+		// method case)
+		switch rapid.IntRange(0, 11).Draw(t, "neardup") {
+		case 0:
+			r.Host = strings.ToUpper(r.Host)
+		case 1:
+			if h := vfStripPort(r.Host); h == r.Host {
+				r.Host += "."
+			}
+		case 2:
+			if h := vfStripPort(r.Host); h == r.Host {
+				r.Host += ":80"
+			} else if !strings.HasPrefix(r.Host, "[") {
+				r.Host = h
+			}
+		case 3:
+			r.Path = strings.ToUpper(r.Path)
+		case 4:
+			if !strings.HasSuffix(r.Path, "/") {
+				r.Path += "/"
+			}
+		case 5:
+			r.Method = strings.ToLower(r.Method)
 		}
 		c := rapid.SampledFrom(vfClients).Draw(t, "client")
 		c.apply(&r)
